@@ -372,7 +372,6 @@ func pickForm(rng *rand.Rand, peer int, ownPct, foreignPct int) addrArg {
 }
 
 type genOpts struct {
-	quick       bool
 	reopenEvery bool
 	minLen      int
 	maxLen      int
@@ -383,7 +382,7 @@ type genOpts struct {
 // updates name classes that exist, sequence numbers are lower/equal/higher than the stored one.
 func generate(rng *rand.Rand, id string, stores []storeCfg, o genOpts) *history {
 	h := &history{ID: id, Stores: stores}
-	h.GCPurge = []time.Duration{3 * time.Second, 10 * time.Second, 45 * time.Second}[rng.IntN(3)]
+	h.GCPurge = []time.Duration{5 * time.Second, 20 * time.Second, 60 * time.Second}[rng.IntN(3)]
 	h.GCLook = h.GCPurge * time.Duration([]int{1, 2, 4}[rng.IntN(3)])
 	h.GCDelay = []time.Duration{0, time.Second, 7 * time.Second}[rng.IntN(3)]
 	h.ReadProb = []float64{1, 0.5, 0.5, 0.2, 0.2}[rng.IntN(5)]
